@@ -40,7 +40,12 @@ func runC02(w *W) {
 	// ---- workload
 	so := tgenOpts{MaxStructs: 1 + t.Intn(4, "sch.structs"), MaxFields: 1 + t.Intn(8, "sch.fields"), MaxDepth: 1 + t.Intn(3, "sch.depth"),
 		BigIDs: t.Chance(1, 3, "sch.bigids"), ManyFields: t.Chance(1, 4, "sch.wide"), Aliases: t.Chance(1, 3, "sch.alias"),
-		Requiredness: t.Chance(1, 2, "sch.req"), Recursive: t.Chance(1, 3, "sch.rec"), Defaults: t.Chance(1, 4, "sch.defaults")}
+		Requiredness: t.Chance(1, 2, "sch.req"), Recursive: t.Chance(1, 3, "sch.rec"), Defaults: t.Chance(1, 4, "sch.defaults"),
+		// base64 binaries are the precondition of an open native finding (decode past the buffer's capacity):
+		// they are generated in 1/5 of the worlds only, and there every output buffer - the caller's and the
+		// ones the library grows - ends at an unmapped page, so that the overflow faults instead of corrupting the heap
+		NoBinary: !t.Chance(1, 5, "sch.binary")}
+	w.World.GuardGrowth = !so.NoBinary
 	sch := genSchema(t, so)
 	po := thrift.Options{}
 	if so.Defaults {
@@ -88,8 +93,13 @@ func runC02(w *W) {
 		nenv := 2 + t.Intn(3, "nenv")
 		for k := 0; k < nenv; k++ {
 			env := drawJ2TEnv(w, len(exp), len(js))
+			b64 := hasBinary(val) && !opts.NoBase64Binary
+			if b64 && env.DoInto {
+				env.OutPlace = simrt.PlaceGuardEnd
+			}
 			w.NextOp(fmt.Sprintf("j2t doc %d env %s", d, env))
-			w.opFacts = map[string]string{"negative": fmt.Sprint(negative != ""), "in_place": simrt.PlaceNames[env.InPlace], "last_byte": lastByteClass(js), "literal_near_end": fmt.Sprint(literalNearEnd(js))}
+			w.opFacts = map[string]string{"negative": fmt.Sprint(negative != ""), "in_place": simrt.PlaceNames[env.InPlace], "last_byte": lastByteClass(js), "literal_near_end": fmt.Sprint(literalNearEnd(js)),
+				"has_base64": fmt.Sprint(b64), "out_guarded": fmt.Sprint(b64)}
 			r := runJ2T(w, &cv, desc, js, env, ctx)
 			w.opFacts = nil
 			w.T.NoteBytes(r.Out)
@@ -127,6 +137,7 @@ func runC02(w *W) {
 				}
 				if !bytes.Equal(r.Out, exp) {
 					facts["diff"] = diffShape(r.Out, exp)
+					facts["null_header_residue"] = fmt.Sprint(nullHeaderResidue(r.Out, exp, val, wo))
 					w.Failf("wrong-bytes", facts, "output differs from the reference encoding (env %s)\n got: %x\nwant: %x\njson: %s", env, clipb(r.Out, 400), clipb(exp, 400), clip(js, 400))
 				}
 				w.Count("conforming_docs_ok")
@@ -318,4 +329,55 @@ func diffShape(got, want []byte) string {
 		return fmt.Sprintf("missing-run")
 	}
 	return "shorter"
+}
+
+// nullHeaderResidue characterises a mismatch (known finding F02): got equals want except that 3
+// stray bytes were left at the unwind position of one or more structs whose LAST document member is
+// null (the offsets come from the reference encoder). Returns the number of such residues, 0 if the
+// mismatch has another shape.
+func nullHeaderResidue(got, want []byte, val *TVal, wo writeOpts) int {
+	var marks []int
+	nullTailMarks = &marks
+	expectJ2T(nil, val, wo)
+	nullTailMarks = nil
+	if len(marks) == 0 || len(got) <= len(want) || (len(got)-len(want))%3 != 0 {
+		return 0
+	}
+	isMark := map[int]bool{}
+	for _, m := range marks {
+		isMark[m] = true
+	}
+	need := (len(got) - len(want)) / 3
+	// try: insert 3 arbitrary bytes at a subset of the marked offsets (greedy left to right with backtracking over <= 2^k, k small)
+	var rec func(i, j, n int) bool
+	rec = func(i, j, n int) bool {
+		for {
+			if len(got)-i == len(want)-j {
+				return n == need && bytes.Equal(got[i:], want[j:])
+			}
+			if isMark[j] && i+3 <= len(got) {
+				// either a residue sits here ...
+				if rec(i+3, j+0, n+1) && false {
+					return true
+				}
+				saved := isMark[j]
+				isMark[j] = false
+				ok := rec(i+3, j, n+1)
+				isMark[j] = saved
+				if ok {
+					return true
+				}
+			}
+			// ... or not
+			if j >= len(want) || i >= len(got) || got[i] != want[j] {
+				return false
+			}
+			i++
+			j++
+		}
+	}
+	if rec(0, 0, 0) {
+		return need
+	}
+	return 0
 }
